@@ -4,6 +4,7 @@ import (
 	"errors"
 	"fmt"
 	"net/url"
+	"sort"
 	"strings"
 	"testing"
 	"time"
@@ -33,7 +34,9 @@ type c11Scenario struct {
 	Total     int         `json:"total"`
 	Type      string      `json:"type"`      // "" | VOD | EVENT
 	URIStyle  string      `json:"uri_style"` // rel | subdir | up | abs | query
-	Range     string      `json:"range"`     // none | explicit | nostart
+	Range     string      `json:"range"`     // none | explicit | nostart | continued | mixed
+	PLQuery   bool        `json:"pl_query,omitempty"` // playlist URLs carry a query string (token)
+	RangeMask int         `json:"range_mask,omitempty"` // mixed: bit (segment index % 16) set = that sub-range is written without offset
 	MSNBase   int         `json:"msn_base"`
 	Multi     bool        `json:"multi"`
 	LL        bool        `json:"ll"`
@@ -115,7 +118,11 @@ func drawC11(t *rapid.T) c11Scenario {
 	sc.Total = rapid.IntRange(8, 24).Draw(t, "total")
 	sc.Type = rapid.SampledFrom([]string{"", "", "VOD", "EVENT"}).Draw(t, "type")
 	sc.URIStyle = rapid.SampledFrom([]string{"rel", "rel", "subdir", "up", "abs", "query"}).Draw(t, "uristyle")
-	sc.Range = rapid.SampledFrom([]string{"none", "none", "explicit", "nostart", "continued"}).Draw(t, "range")
+	sc.Range = rapid.SampledFrom([]string{"none", "none", "explicit", "nostart", "continued", "mixed"}).Draw(t, "range")
+	sc.PLQuery = rapid.IntRange(0, 3).Draw(t, "plQuery") == 0
+	if sc.Range == "mixed" {
+		sc.RangeMask = rapid.IntRange(1, 1<<16-1).Draw(t, "rangeMask")
+	}
 	sc.MSNBase = rapid.SampledFrom([]int{0, 0, 1, 100, 2147483000}).Draw(t, "msnbase")
 	sc.LL = sc.Container == "fmp4" && rapid.IntRange(0, 4).Draw(t, "ll") == 0
 	if sc.LL {
@@ -171,7 +178,11 @@ func c11Model(sc c11Scenario, st c11Stream, playlistURL string, segURL func(i in
 				add(hintURL(p.Hint), "")
 				pu := playlistURL
 				if sc.SkipUntil {
-					pu += "?_HLS_skip=YES"
+					if strings.Contains(pu, "?") {
+						pu += "&_HLS_skip=YES"
+					} else {
+						pu += "?_HLS_skip=YES"
+					}
 				}
 				add(pu, "")
 				p = snap()
@@ -230,7 +241,7 @@ func execC11(sc c11Scenario) core.Outcome {
 		for i := 0; i < sc.Total; i++ {
 			pl.Segs = append(pl.Segs, cli.SegShape{Frags: [][]int{{1}}, Date: true})
 		}
-		pl.ByteRange = sc.Range == "explicit" || sc.Range == "continued"
+		pl.ByteRange = sc.Range == "explicit" || sc.Range == "continued" || sc.Range == "mixed"
 		return pl
 	}
 	if sc.Container == "mpegts" {
@@ -286,8 +297,12 @@ func execC11(sc c11Scenario) core.Outcome {
 		}
 		return fmt.Sprintf("audio/r%d/", pi)
 	}
+	plQuery := ""
+	if sc.PLQuery {
+		plQuery = "?token=abc&b=2"
+	}
 	for pi, bp := range all {
-		plURL := base + plDir(pi) + bp.Path
+		plURL := base + plDir(pi) + bp.Path + plQuery
 		// register files under their resolved paths and rewrite the URIs of the playlist
 		newURIs := make([]string, len(bp.SegURIs))
 		for i, u := range bp.SegURIs {
@@ -333,15 +348,16 @@ func execC11(sc c11Scenario) core.Outcome {
 				}
 				txt = sb.String()
 			}
-			if sc.Range == "continued" {
+			if sc.Range == "continued" || sc.Range == "mixed" {
 				// only the first listed sub-range carries its offset; the others continue after
-				// the previous one (RFC 8216 4.3.2.2)
+				// the previous one (RFC 8216 4.3.2.2). mixed: each later sub-range drops its offset
+				// or keeps it, per segment
 				var sb strings.Builder
 				seen := 0
 				for _, l := range strings.SplitAfter(txt, "\n") {
 					if strings.HasPrefix(l, "#EXT-X-BYTERANGE:") {
 						seen++
-						if seen > 1 {
+						if seen > 1 && (sc.Range == "continued" || sc.RangeMask&(1<<((sn.First+seen-1)%16)) != 0) {
 							if i := strings.IndexByte(l, '@'); i >= 0 {
 								l = l[:i] + "\n"
 							}
@@ -366,9 +382,15 @@ func execC11(sc c11Scenario) core.Outcome {
 			mv = strings.Replace(mv, fmt.Sprintf("URI=\"rend%d.m3u8\"", i), fmt.Sprintf("URI=\"%srend%d.m3u8\"", plDir(i+1), i), 1)
 		}
 	}
+	if sc.PLQuery {
+		mv = strings.Replace(mv, "lead.m3u8\n", "lead.m3u8"+plQuery+"\n", 1)
+		for i := range b.Renditions {
+			mv = strings.Replace(mv, fmt.Sprintf("rend%d.m3u8\"", i), fmt.Sprintf("rend%d.m3u8%s\"", i, plQuery), 1)
+		}
+	}
 	srv.AddPlaylist("live/index.m3u8", mv)
 
-	entry := base + "lead.m3u8"
+	entry := base + "lead.m3u8" + plQuery
 	if sc.Multi {
 		entry = base + "index.m3u8"
 	}
@@ -391,7 +413,7 @@ func execC11(sc c11Scenario) core.Outcome {
 		segURL := func(i int) (string, string) {
 			u := resolve(inf.url, bp.SegURIs[i])
 			switch sc.Range {
-			case "explicit", "continued":
+			case "explicit", "continued", "mixed":
 				return u, fmt.Sprintf("bytes=%d-%d", origBP.SegRanges[i][0], origBP.SegRanges[i][0]+origBP.SegRanges[i][1]-1)
 			case "nostart":
 				return u, fmt.Sprintf("bytes=0-%d", len(b.Files[origBP.SegURIs[i]])-1)
@@ -400,7 +422,7 @@ func execC11(sc c11Scenario) core.Outcome {
 		}
 		initURL := func() (string, string) {
 			u := resolve(inf.url, bp.InitURI)
-			if sc.Range == "explicit" || sc.Range == "continued" {
+			if sc.Range == "explicit" || sc.Range == "continued" || sc.Range == "mixed" {
 				return u, fmt.Sprintf("bytes=%d-%d", origBP.InitRange[0], origBP.InitRange[0]+origBP.InitRange[1]-1)
 			}
 			return u, ""
@@ -463,7 +485,7 @@ func execC11(sc c11Scenario) core.Outcome {
 			if k >= len(want) {
 				return fail(o, "stream %s made %d requests, the model expects %d; extra: %v\nall: %v", prefix, len(got), len(want), got[k], reqURLs(r.Requests))
 			}
-			if got[k] != want[k] {
+			if got[k].rng != want[k].rng || !sameURL(got[k].url, want[k].url) {
 				return fail(o, "stream %s request %d is %v, the model expects %v (playlist %s)\nall: %v", prefix, k, got[k], want[k], inf.url, reqURLs(r.Requests))
 			}
 		}
@@ -547,4 +569,34 @@ func TestKnownF17(t *testing.T) {
 		}
 	}
 	fmt.Println("F17 does not reproduce; requests:", reqURLs(r.Requests))
+}
+
+// sameURL compares two URLs: scheme, host and path exactly, the query as a multiset of
+// key/value pairs (the statement does not fix the order of query parameters).
+func sameURL(a, b string) bool {
+	if a == b {
+		return true
+	}
+	ua, err1 := url.Parse(a)
+	ub, err2 := url.Parse(b)
+	if err1 != nil || err2 != nil {
+		return false
+	}
+	if ua.Scheme != ub.Scheme || ua.Host != ub.Host || ua.Path != ub.Path {
+		return false
+	}
+	qa, qb := ua.Query(), ub.Query()
+	if len(qa) != len(qb) {
+		return false
+	}
+	for k, va := range qa {
+		vb := append([]string{}, qb[k]...)
+		va = append([]string{}, va...)
+		sort.Strings(va)
+		sort.Strings(vb)
+		if strings.Join(va, "\x00") != strings.Join(vb, "\x00") || len(va) != len(vb) {
+			return false
+		}
+	}
+	return true
 }
